@@ -285,7 +285,7 @@ def run_shard(desc, seed, tier, col):
         inputs = []
         form = d.pick(['DER', 'CER', 'BER-indef', 'BER-drawn'])
         enc = gen.encode_form(draw, T, v, form)
-        inputs.append(('valid' if not fz.nested_bitstring_segments(T, enc) else 'valid:nested-bits', enc, True))
+        inputs.append(('valid', enc, True))
         der = x690.der(T, v)
         for label, v2 in neighbours(d, T, v)[:4]:
             try:
@@ -315,17 +315,4 @@ def run_shard(desc, seed, tier, col):
 
 
 
-# ---------------------------------------------------------------- known findings
-
-def _f_opt_empty_record(failure):
-    """F03: the library's BER encoder writes a never-set OPTIONAL all-optional record as present-and-empty, so
-    decode(encode(result)) gains such components."""
-    if failure['kind'] != 'fixpoint' or not failure.get('obs'):
-        return False
-    case = fz.case_of(failure)
-    T = case['T']
-    o = ir.from_jsonable(failure['obs'])
-    return ir.same(T, fz.strip_empty_optional_records(T, o['r']), fz.strip_empty_optional_records(T, o['r2']))
-
-
-FINDINGS = {'F03-optional-empty-record': _f_opt_empty_record}
+FINDINGS = {}
